@@ -110,6 +110,11 @@ type world struct {
 	seq    int
 	hdrGen int
 	nextID int
+	// the live header row, if some add-time row callback was handed it (whether that happens is not specified; if
+	// it does, the row is an owner like any other row)
+	hdrRow    *tabular.Row
+	hdrRowGen int
+	inHdrOp   bool
 }
 
 type recorder struct {
@@ -121,6 +126,9 @@ type recorder struct {
 func (rc *recorder) UpdateProperties(po tabular.PropertyOwner) error {
 	w := rc.w
 	obj := w.identify(po)
+	if row, isRow := po.(*tabular.Row); isRow && obj == "?row" && w.inHdrOp {
+		w.hdrRow, w.hdrRowGen = row, w.hdrGen
+	}
 	w.actual = append(w.actual, event{rc.r.id, obj})
 	w.seq++
 	po.SetProperty(markKey{rc.r.id}, w.seq)
@@ -165,6 +173,9 @@ func (w *world) identify(po tabular.PropertyOwner) ident {
 			if r.Real == x {
 				return ident(fmt.Sprintf("R%d", i))
 			}
+		}
+		if x == w.hdrRow && w.hdrRowGen == w.hdrGen && !w.inHdrOp {
+			return "Q" // the current header row
 		}
 		return "?row"
 	case *tabular.Cell:
@@ -222,6 +233,13 @@ func specified(r *reg, obj ident) bool {
 		case tCell:
 			return r.when != wRender
 		}
+	case "hdrrow":
+		switch r.target {
+		case tItself, tRow:
+			return r.when == wPre || r.when == wPost
+		case tCell:
+			return r.when == wPre || r.when == wPost
+		}
 	case "cell", "hdrcell":
 		return r.when == wRender
 	}
@@ -235,7 +253,7 @@ func (w *world) regsOf(owner string, when, target int, match func(*reg) bool) []
 			continue
 		}
 		t := r.target
-		if owner == "row" && t == tRow {
+		if (owner == "row" || owner == "hdrrow") && t == tRow {
 			t = tItself
 		}
 		if (owner == "cell" || owner == "hdrcell") && t == tCell {
@@ -281,11 +299,14 @@ func (w *world) predictRender(pred *[]event) {
 		emit(w.regsOf("table", wPost, tCell, nil), obj)
 	}
 	if w.m.HeaderSet {
+		cur := func(r *reg) bool { return r.hdrGen == w.hdrGen }
+		emit(w.regsOf("hdrrow", wPre, tItself, cur), "Q")
 		for j := range w.m.Header {
 			j := j
 			cellRegs := w.regsOf("hdrcell", wRender, tItself, func(r *reg) bool { return r.cell == j && r.hdrGen == w.hdrGen })
-			cellSeq(ident(fmt.Sprintf("H%d", j)), j+1, func(int) []*reg { return nil }, cellRegs, false)
+			cellSeq(ident(fmt.Sprintf("H%d", j)), j+1, func(when int) []*reg { return w.regsOf("hdrrow", when, tCell, cur) }, cellRegs, false)
 		}
+		emit(w.regsOf("hdrrow", wPost, tItself, cur), "Q")
 	}
 	for _, mr := range w.m.Rows {
 		mr := mr
@@ -413,7 +434,7 @@ func CheckCase(c Case) *ev.Violation {
 	byID := map[int]*reg{}
 	compare := func(step int, what string, pred []event) *ev.Violation {
 		for _, pe := range w.late {
-			if obj := w.identify(pe.po); !strings.HasPrefix(string(obj), "?") {
+			if obj := w.identify(pe.po); !strings.HasPrefix(string(obj), "?") && obj != "Q" {
 				w.actual[pe.at].obj = obj
 				w.marks[w.actual[pe.at]] = pe.val
 			}
@@ -451,8 +472,10 @@ func CheckCase(c Case) *ev.Violation {
 			w.predictOp(*st.Op, &pred)
 			if st.Op.K == "hdr" {
 				w.hdrGen++
+				w.inHdrOp = true
 			}
 			w.m.Step(t, *st.Op)
+			w.inHdrOp = false
 		case "render":
 			w.predictRender(&pred)
 			// whichever renderer draws the table, it is one render pass
@@ -589,6 +612,11 @@ func CheckCase(c Case) *ev.Violation {
 					if r.cell < len(cells) {
 						owner = &cells[r.cell]
 					}
+				}
+			case "hdrrow":
+				if w.hdrRow != nil && w.hdrRowGen == w.hdrGen && w.m.HeaderSet {
+					r.hdrGen = w.hdrGen
+					owner = w.hdrRow
 				}
 			case "hdrcell":
 				hs := t.Headers()
